@@ -180,6 +180,9 @@ FIXED = [
  ('C09', 'placeholder-defaults-kept-on-equal-code-cache-hit', '787db76',
   "function without defaults that hit the cache entry of an equal-code function with defaults kept None placeholder defaults (f(a0, *, k0) became f(a0=None, *, k0=None))",
   {'seed': 'C09/0/1/21', 'twin': True}),
+ ('C15', 'textual-continuation-unfolding', '0a7771a',
+  "dedent_block removed backslash-newline textually: a comment ending in a backslash swallowed the next statement / def line, strings with an escaped backslash before a newline were altered",
+  {'seed': 'C15/0/4/0', 'tabs': True, 'features': ['comment_bs', 'triple_bs_end', 'raw_triple_bs', 'comment_bs_then_str', 'continuation', 'str_bs_nl', 'bytes_indented']}),
  ('C04', 'nested-conditional-expression-native', '97e2f5a',
   "a conditional expression nested in the test or a branch of another one stayed native (visit_IfExp did not visit children)",
   'C04MATRIX'),
